@@ -138,7 +138,22 @@ def check_pipeline(case, out):
                 drawn.append(float(w_))
                 yield x, w_
         Rs[0].opt.sample_parameters = recording
+        # the largest spectrum value any sampled point produces (sampled temperatures move emission spectra by many
+        # orders of magnitude): the rounding floor of a streamed variance is eps x that magnitude squared, whatever the
+        # magnitude of the best-fit spectrum
+        seen_max = [0.0]
+        orig_model = Rs[0].m.model
+
+        def recording_model(*a, **k):
+            r_ = orig_model(*a, **k)
+            with np.errstate(all='ignore'):
+                v_ = np.asarray(r_[1], dtype=float)
+                if v_.size and np.any(np.isfinite(v_)):
+                    seen_max[0] = max(seen_max[0], float(np.nanmax(np.abs(v_[np.isfinite(v_)]))))
+            return r_
+        Rs[0].m.model = recording_model
         single = cut(out, 'single-process', work, Rs[0])
+        Rs[0].m.model = orig_model
         Rs[0].opt.sample_parameters = orig_sp
         massless = bool(drawn) and max(drawn) < 1e-290
         random.seed(4242)      # only rank 0 draws the sub-sample (and broadcasts it)
@@ -178,8 +193,8 @@ def check_pipeline(case, out):
             out.cls('condensate-chemistry')
         scales = {'temp_profile_std': float(np.max(Rs[0].m.temperatureProfile)) * 2, 'active_mix_profile_std': 1.0,
                   'condensate_profile_std': 1e-8,
-                  'inactive_mix_profile_std': 1.0, 'native_std': float(np.max(np.abs(nominal[1]))) * 10,
-                  'binned_std': float(np.max(np.abs(nominal[1]))) * 10}
+                  'inactive_mix_profile_std': 1.0, 'native_std': max(float(np.max(np.abs(nominal[1]))), seen_max[0]) * 10,
+                  'binned_std': max(float(np.max(np.abs(nominal[1]))), seen_max[0]) * 10}
         if massless:
             # every sub-sampled point has zero posterior weight (carried as 1e-300): the weighted sums of squares are
             # denormal numbers (1e-300 x spread^2) with few significant bits, in any evaluation order -- nothing to compare
@@ -194,7 +209,10 @@ def check_pipeline(case, out):
                     break
             for k in ([] if massless else single[1]):
                 if k not in spec or not same(spec[k], single[1][k], scales.get(k, 1.0)):
-                    out.fail('pipeline-std@spectra,%s' % tag, 'rank %d of %d: %s differs from the single-process value' % (r, nr, k))
+                    a_, b_ = np.asarray(spec.get(k), dtype=float), np.asarray(single[1][k], dtype=float)
+                    i_ = int(np.nanargmax(np.abs(a_ * a_ - b_ * b_))) if a_.shape == b_.shape and a_.size else 0
+                    out.fail('pipeline-std@spectra,%s' % tag, 'rank %d of %d: %s differs from the single-process value (e.g. %r vs %r; scale %r)'
+                             % (r, nr, k, a_.ravel()[i_] if a_.size else None, b_.ravel()[i_] if b_.size else None, scales.get(k, 1.0)))
                     break
             out.applies('pipeline-derived')
             for k in (single[2] or {}):
